@@ -195,37 +195,32 @@ static int c01_lj_run(const unsigned char *b, size_t n, unsigned long long rs, u
   d.buffered_image = C01_P(20);
   jpeg_start_decompress(&d);
   if (d.data_precision != 8) { jpeg_abort_decompress(&d); jpeg_destroy_decompress(&d); snprintf(desc, dsz, "non-8-bit via libjpeg skipped"); return -1; }
-  rowb = (size_t)d.output_width * d.output_components;
+#define C01_ROWB(d) ((size_t)(d).output_width * (((d).out_color_space == JCS_RGB565 && !(d).quantize_colors) ? 2 : (d).output_components))
+  rowb = C01_ROWB(d);   /* the documented row size: RGB565 pixels are 2 bytes although output_components says 3 */
   {
     JDIMENSION xo = 0, cw = d.output_width; int docrop = C01_P(25) && !d.buffered_image && !d.quantize_colors, doskip = C01_P(30) && !d.buffered_image && !d.quantize_colors;
-    if (docrop) { xo = (JDIMENSION)C01_RND(d.output_width); cw = 1 + (JDIMENSION)C01_RND(d.output_width - xo); jpeg_crop_scanline(&d, &xo, &cw); rowb = (size_t)d.output_width * d.output_components; }
+    if (docrop) { xo = (JDIMENSION)C01_RND(d.output_width); cw = 1 + (JDIMENSION)C01_RND(d.output_width - xo); jpeg_crop_scanline(&d, &xo, &cw); rowb = C01_ROWB(d); }
     rows = (unsigned char *)malloc(rowb * d.output_height + 16); memset(rows, fill, rowb * d.output_height + 16);
     if (d.buffered_image) {
       while (!jpeg_input_complete(&d)) {
         int rc = jpeg_consume_input(&d);
         if (rc == JPEG_REACHED_EOI) break;
-        if (C01_P(10)) { jpeg_start_output(&d, d.input_scan_number); total = 0; while (d.output_scanline < d.output_height) { JSAMPROW rp = rows + (size_t)d.output_scanline * rowb; jpeg_read_scanlines(&d, &rp, 1); } jpeg_finish_output(&d); }
+        if (C01_P(10)) { jpeg_start_output(&d, d.input_scan_number); total = 0; while (d.output_scanline < d.output_height) { unsigned char *one = (unsigned char *)malloc(rowb ? rowb : 1); JSAMPROW rp = one; JDIMENSION at = d.output_scanline; memset(one, fill, rowb); if (jpeg_read_scanlines(&d, &rp, 1) == 1) memcpy(rows + (size_t)at * rowb, one, rowb); free(one); } jpeg_finish_output(&d); }
       }
       jpeg_start_output(&d, d.input_scan_number);
-      while (d.output_scanline < d.output_height) { JSAMPROW rp = rows + (size_t)d.output_scanline * rowb; jpeg_read_scanlines(&d, &rp, 1); }
+      while (d.output_scanline < d.output_height) { unsigned char *one = (unsigned char *)malloc(rowb ? rowb : 1); JSAMPROW rp = one; JDIMENSION at = d.output_scanline; memset(one, fill, rowb); if (jpeg_read_scanlines(&d, &rp, 1) == 1) memcpy(rows + (size_t)at * rowb, one, rowb); free(one); }
       jpeg_finish_output(&d);
       total = rowb * d.output_height;
     } else {
       size_t wr = 0;
       while (d.output_scanline < d.output_height) {
         if (doskip && C01_P(20)) { jpeg_skip_scanlines(&d, (JDIMENSION)(1 + C01_RND(20))); continue; }
-        { JSAMPROW rp = rows + wr; if (jpeg_read_scanlines(&d, &rp, 1) == 1) wr += rowb; }
+        { unsigned char *one = (unsigned char *)malloc(rowb ? rowb : 1); JSAMPROW rp = one; memset(one, fill, rowb); if (jpeg_read_scanlines(&d, &rp, 1) == 1) { memcpy(rows + wr, one, rowb); wr += rowb; } free(one); }
       }
       total = wr;
     }
   }
   jpeg_finish_decompress(&d);
-  if (d.out_color_space == JCS_RGB565 && !d.quantize_colors && rowb) {
-    /* two bytes per pixel are produced although output_components says 3 */
-    size_t nr = total / rowb, r, eff = (size_t)d.output_width * 2;
-    for (r = 0; r < nr; r++) memmove(rows + r * eff, rows + r * rowb, eff);
-    total = nr * eff;
-  }
   snprintf(desc, dsz, "libjpeg %ux%u oc%d cs%d scale%d/8 w%d", d.output_width, d.output_height, d.output_components, (int)d.out_color_space, d.scale_num, e.nwarn);
   jpeg_destroy_decompress(&d);
   *out = rows; *outsz = total;
